@@ -1223,7 +1223,7 @@ func (v *Verifier) resolveModTarget(cf *Frame, st *State, m ast.Expr, pos token.
 				case OpaqueVal:
 					ref = o.ID
 				case PtrVal:
-					ref = o.Ref
+					ref = v.ptrIdentity(o, pos)
 				}
 				if ref == nil {
 					panic(unsupportedf(pos, "modifies %s(...): argument has no identity", id.Name))
